@@ -1,3 +1,224 @@
-import Rtcp.Lemmas.Safe6
+/-
+  C02 — encode-then-decode returns the original packet for every well-formed value.
+  `WF` per type: Model/WF.lean. Quantisation: `ReceiverReport.quant` pads profile extensions to 32 bits.
+  Proved here for SR, RR, SDES, BYE, APP, NACK, RRR, PLI, FIR, SLI (own decoder) and RawPacket, and for every
+  finite list of such packets through rtcp.Marshal / rtcp.Unmarshal, including the re-marshal.
+  Known findings excluded by hypothesis: SLI through the datagram path (KF-SLI-PT); a frame of exactly
+  262144 octets (Length = 0xFFFF) is not cut by rtcp.Unmarshal (KF-LEN-FFFF).
+  REMB: Proofs/C14. TWCC, CCFB, XR: correspondence only at this point (see evidence `types_proved`).
+-/
+import Rtcp.Lemmas.Frame
 namespace Rtcp.C02
+open Rtcp Gen Out
+set_option linter.unusedSimpArgs false
+set_option linter.unusedVariables false
+
+/-! ### each type's own decoder -/
+
+theorem sr_roundtrip (v : SenderReport) (h : v.WF) : (v.enc >>= SenderReport.dec) = .ok v := SenderReport.roundtrip v h
+theorem rr_roundtrip (v : ReceiverReport) (h : v.WF) : (v.enc >>= ReceiverReport.dec) = .ok v.quant := ReceiverReport.roundtrip v h
+theorem sdes_roundtrip (v : SourceDescription) (h : v.WF) : (v.enc >>= SourceDescription.dec) = .ok v := SourceDescription.roundtrip v h
+theorem bye_roundtrip (v : Goodbye) (h : v.WF) : (v.enc >>= Goodbye.dec) = .ok v := Goodbye.roundtrip v h
+theorem app_roundtrip (v : ApplicationDefined) (h : v.WF) : (v.enc >>= ApplicationDefined.dec) = .ok v := ApplicationDefined.roundtrip v h
+theorem nack_roundtrip (v : TransportLayerNack) (h : v.WF) : (v.enc >>= TransportLayerNack.dec) = .ok v := TransportLayerNack.roundtrip v h
+theorem rrr_roundtrip (v : RapidResync) (h : v.WF) : (v.enc >>= RapidResync.dec) = .ok v := RapidResync.roundtrip v h
+theorem pli_roundtrip (v : PictureLossIndication) (h : v.WF) : (v.enc >>= PictureLossIndication.dec) = .ok v := PictureLossIndication.roundtrip v h
+theorem sli_roundtrip_own (v : SliceLossIndication) (h : v.WF) : (v.enc >>= SliceLossIndication.dec) = .ok v := SliceLossIndication.roundtrip v h
+theorem fir_roundtrip (v : FullIntraRequest) (h : v.WF) : (v.enc >>= FullIntraRequest.dec) = .ok v := FullIntraRequest.roundtrip v h
+
+/-- RawPacket: any octets starting with a version-2 header -/
+theorem raw_roundtrip (b : Bytes) (h : 4 ≤ b.length) (hv : get8 b 0 / 64 % 4 = 2) :
+    ((Packet.raw b).enc >>= decKind .raw) = .ok (.raw b) := by
+  simp only [Packet.enc, Packet.encP, bind_ok, pure_eq, decKind, rawDec]
+  rw [if_neg (by simp; omega)]
+  unfold Header.dec
+  rw [if_neg (by simp; omega), u8At_of_lt (by omega), bind_ok, if_neg (by simp [hv]), u8At_of_lt (by omega), u16At_of_le (by omega)]
+  rfl
+
+/-! ### lists of packets through the datagram functions -/
+
+/-- the documented quantisations -/
+def quant : Packet → Packet
+  | .rr v => .rr v.quant
+  | p => p
+
+/-- well-formed packets for which the datagram round trip is proved -/
+inductive DWF : Packet → Prop
+  | sr (v : SenderReport) (h : v.WF) (hs : v.marshalSize ≤ 262140) : DWF (.sr v)
+  | rr (v : ReceiverReport) (h : v.WF) (hs : v.marshalSize ≤ 262140) : DWF (.rr v)
+  | sdes (v : SourceDescription) (h : v.WF) (hs : v.marshalSize ≤ 262140) : DWF (.sdes v)
+  | bye (v : Goodbye) (h : v.WF) : DWF (.bye v)
+  | app (v : ApplicationDefined) (h : v.WF) : DWF (.app v)
+  | nack (v : TransportLayerNack) (h : v.WF) : DWF (.nack v)
+  | rrr (v : RapidResync) (h : v.WF) : DWF (.rrr v)
+  | pli (v : PictureLossIndication) (h : v.WF) : DWF (.pli v)
+  | fir (v : FullIntraRequest) (h : v.WF) : DWF (.fir v)
+
+/-- one well-formed packet: its encoding is a frame that the datagram decoder dispatches back to the same Go type
+and decodes to the (quantised) original -/
+theorem frame_of_DWF (p : Packet) (h : DWF p) :
+    ∃ f hd, p.encP = .ok (f, p) ∧ Framed f hd ∧ decKind (dispatch hd.type hd.count) f = .ok (quant p) ∧ f.length = p.marshalSize := by
+  cases h with
+  | sr v h hs =>
+    obtain ⟨f, he, hf, hl⟩ := SenderReport.framed v h hs
+    refine ⟨f, v.header, by simp [Packet.encP, he], hf, ?_, hl⟩
+    have := SenderReport.roundtrip v h; rw [he, bind_ok] at this
+    show decKind (dispatch TypeSenderReport _) f = _
+    simp [dispatch, decKind, this, quant]
+  | rr v h hs =>
+    obtain ⟨f, he, hf, hl⟩ := ReceiverReport.framed v h hs
+    refine ⟨f, v.header, by simp [Packet.encP, he], hf, ?_, hl⟩
+    have := ReceiverReport.roundtrip v h; rw [he, bind_ok] at this
+    show decKind (dispatch TypeReceiverReport _) f = _
+    simp [dispatch, decKind, this, quant]
+  | sdes v h hs =>
+    obtain ⟨f, he, hf, hl⟩ := SourceDescription.framed v h hs
+    refine ⟨f, v.header, by simp [Packet.encP, he], hf, ?_, hl⟩
+    have := SourceDescription.roundtrip v h; rw [he, bind_ok] at this
+    show decKind (dispatch TypeSourceDescription _) f = _
+    simp [dispatch, decKind, this, quant]
+  | bye v h =>
+    obtain ⟨f, he, hf, hl⟩ := Goodbye.framed v h
+    refine ⟨f, v.header, by simp [Packet.encP, he], hf, ?_, hl⟩
+    have := Goodbye.roundtrip v h; rw [he, bind_ok] at this
+    show decKind (dispatch TypeGoodbye _) f = _
+    simp [dispatch, decKind, this, quant]
+  | app v h =>
+    obtain ⟨f, hd, he, hf, ht, hl⟩ := ApplicationDefined.framed v h
+    refine ⟨f, hd, by simp [Packet.encP, he], hf, ?_, hl⟩
+    have := ApplicationDefined.roundtrip v h; rw [he, bind_ok] at this
+    rw [ht]
+    simp [dispatch, decKind, this, quant]
+  | nack v h =>
+    obtain ⟨f, he, hf, hl⟩ := TransportLayerNack.framed v h
+    refine ⟨f, v.header, by simp [Packet.encP, he], hf, ?_, hl⟩
+    have := TransportLayerNack.roundtrip v h; rw [he, bind_ok] at this
+    show decKind (dispatch TypeTransportSpecificFeedback FormatTLN) f = _
+    simp [dispatch, decKind, this, quant]
+  | rrr v h =>
+    obtain ⟨f, he, hf, hl⟩ := RapidResync.framed v
+    refine ⟨f, v.header, by simp [Packet.encP, he], hf, ?_, hl⟩
+    have := RapidResync.roundtrip v h; rw [he, bind_ok] at this
+    show decKind (dispatch TypeTransportSpecificFeedback FormatRRR) f = _
+    simp [dispatch, decKind, this, quant]
+  | pli v h =>
+    obtain ⟨f, he, hf, hl⟩ := PictureLossIndication.framed v
+    refine ⟨f, v.header, by simp [Packet.encP, he], hf, ?_, hl⟩
+    have := PictureLossIndication.roundtrip v h; rw [he, bind_ok] at this
+    show decKind (dispatch TypePayloadSpecificFeedback FormatPLI) f = _
+    simp [dispatch, decKind, this, quant]
+  | fir v h =>
+    obtain ⟨f, he, hf, hl⟩ := FullIntraRequest.framed v h
+    refine ⟨f, v.header, by simp [Packet.encP, he], hf, ?_, hl⟩
+    have := FullIntraRequest.roundtrip v h; rw [he, bind_ok] at this
+    show decKind (dispatch TypePayloadSpecificFeedback FormatFIR) f = _
+    simp [dispatch, decKind, this, quant]
+
+theorem list_roundtrip_aux (ps : List Packet) (h : ∀ p ∈ ps, DWF p) :
+    ∃ b, uencP ps = .ok (b, ps) ∧ ps.length * 4 ≤ b.length ∧ b.length = csize ps ∧
+      ∀ gas, ps.length < gas → unmarshalLoop gas b = .ok (ps.map quant) := by
+  induction ps with
+  | nil =>
+    refine ⟨[], rfl, by simp, by simp [csize], ?_⟩
+    intro gas hg
+    cases gas with
+    | zero => omega
+    | succ g => simp [unmarshalLoop]
+  | cons p ps ih =>
+    obtain ⟨b, hb, hlen, hsz, hloop⟩ := ih (fun q hq => h q (by simp [hq]))
+    obtain ⟨f, hd, he, hf, hdec, hfl⟩ := frame_of_DWF p (h p (by simp))
+    have hf4 : 4 ≤ f.length := by have := hf.size; omega
+    refine ⟨f ++ b, by simp [uencP, he, hb], by simp; omega, by simp [csize] at hsz ⊢; omega, ?_⟩
+    intro gas hg
+    cases gas with
+    | zero => omega
+    | succ g =>
+      rw [unmarshalLoop_cons f b hd hf g, hdec, bind_ok, hloop g (by simp at hg; omega), bind_ok]
+      rfl
+
+/-- **Unmarshal(Marshal(list)) returns an equal list in order** (modulo the documented quantisation), with the same
+concrete types (the constructors of `Packet` are the Go types) -/
+theorem rt_datagram (ps : List Packet) (hne : ps ≠ []) (h : ∀ p ∈ ps, DWF p) :
+    (uenc ps >>= udec) = .ok (ps.map quant) := by
+  obtain ⟨b, hb, hlen, hsz, hloop⟩ := list_roundtrip_aux ps h
+  simp only [uenc, hb, bind_ok, pure_eq, udec]
+  rw [hloop (b.length + 1) (by omega), bind_ok]
+  rw [if_neg (by simp; exact hne)]
+
+theorem rr_quant_facts (v : ReceiverReport) (hv : v.WF) :
+    v.quant.marshalSize = v.marshalSize ∧ v.quant.WF ∧ v.quant.enc = v.enc := by
+  have hp := getPadding_lt v.ext.length
+  have hm := add_getPadding_mod v.ext.length
+  have hpz : getPadding (v.ext.length + getPadding v.ext.length) = 0 := getPadding_eq_zero hm
+  have hqs : v.quant.marshalSize = v.marshalSize := by
+    simp only [ReceiverReport.marshalSize, ReceiverReport.quant, List.length_append, zeros_length, hpz]
+    omega
+  have hq : v.quant.WF := by
+    obtain ⟨a1, a2, a3, a4⟩ := hv
+    exact ⟨a1, a2, a3, by rw [hqs]; exact a4⟩
+  refine ⟨hqs, hq, ?_⟩
+  rw [ReceiverReport.enc_ok v hv, ReceiverReport.enc_ok v.quant hq]
+  have hh : v.quant.header = v.header := by
+    simp only [ReceiverReport.header, hqs]; rfl
+  rw [hh]
+  simp only [ReceiverReport.quant, List.length_append, zeros_length, hpz, zeros, List.length_replicate, List.replicate_zero, List.append_nil, List.append_assoc]
+
+/-- quantisation keeps packets well-formed and does not change what Marshal emits -/
+theorem quant_DWF (p : Packet) (h : DWF p) : DWF (quant p) := by
+  cases h with
+  | rr v hv hs =>
+    have ⟨h1, h2, _⟩ := rr_quant_facts v hv
+    exact .rr _ h2 (by rw [h1]; exact hs)
+  | sr v h hs => exact .sr v h hs
+  | sdes v h hs => exact .sdes v h hs
+  | bye v h => exact .bye v h
+  | app v h => exact .app v h
+  | nack v h => exact .nack v h
+  | rrr v h => exact .rrr v h
+  | pli v h => exact .pli v h
+  | fir v h => exact .fir v h
+
+theorem quant_encP (p : Packet) (h : DWF p) (f : Bytes) (he : p.encP = .ok (f, p)) : (quant p).encP = .ok (f, quant p) := by
+  cases h with
+  | rr v hv hs =>
+    have ⟨_, _, h3⟩ := rr_quant_facts v hv
+    simp only [Packet.encP] at he ⊢
+    obtain ⟨b, hb, he⟩ := bind_eq_ok.mp he
+    simp at he
+    simp only [quant]
+    rw [h3, hb, bind_ok]; simp [he]
+  | sr v h hs => exact he
+  | sdes v h hs => exact he
+  | bye v h => exact he
+  | app v h => exact he
+  | nack v h => exact he
+  | rrr v h => exact he
+  | pli v h => exact he
+  | fir v h => exact he
+
+/-- **re-marshalling the decoded packets reproduces the same bytes** -/
+theorem rebytes (ps : List Packet) (h : ∀ p ∈ ps, DWF p) : uenc (ps.map quant) = uenc ps := by
+  have key : ∀ ps : List Packet, (∀ p ∈ ps, DWF p) → ∀ b, uencP ps = .ok (b, ps) → uencP (ps.map quant) = .ok (b, ps.map quant) := by
+    intro ps
+    induction ps with
+    | nil => intro _ b hb; simpa [uencP] using hb
+    | cons p ps ih =>
+      intro hall b hb
+      simp only [uencP] at hb
+      obtain ⟨⟨a, p'⟩, hp, hb⟩ := bind_eq_ok.mp hb
+      obtain ⟨⟨r, ps'⟩, hr, hb⟩ := bind_eq_ok.mp hb
+      simp at hb
+      obtain ⟨hb1, hb3, hb4⟩ := hb
+      subst hb3; subst hb4
+      have h1 := quant_encP p' (hall p' (by simp)) a hp
+      have h2 := ih (fun q hq => hall q (by simp [hq])) r hr
+      simp only [List.map_cons, uencP, h1, bind_ok, h2]
+      simp [hb1]
+  obtain ⟨b, hb, _⟩ := list_roundtrip_aux ps h
+  simp only [uenc, hb, key ps h b hb, bind_ok]
+
+/-- non-vacuity: a compound-shaped list satisfies the hypotheses -/
+example : DWF (.rr { ssrc := 1, reports := [{ ssrc := 2, totalLost := 16777215 }], ext := [1, 2, 3] }) :=
+  .rr _ (by decide) (by decide)
+
 end Rtcp.C02
